@@ -14,7 +14,7 @@ contains
     real(kind=wp), intent(inout) :: t, q
     integer, intent(inout) :: k
     integer :: i, j
-    real(kind=wp) :: w
+    real(kind=wp) :: w{locals}
 {body}
   end subroutine s
   subroutine prefix_sum(x, nn)
@@ -80,14 +80,23 @@ BODIES = {
     "exit_loop": [loop("1, n", "if (b(i) < 0.0_wp) exit\na(i) = b(i)"), "c(1) = a(1)"],
     "cycle_loop": [loop("1, n", "if (b(i) < 0.0_wp) cycle\na(i) = b(i)"), "c(1) = a(1)"],
     "return_mid": ["a(1) = t", "if (k > 0) then\n  return\nend if", "b(1) = a(1)"],
+    "strided_full": ["c(::k) = a(::k) * t", "q = c(1)"],
+    "strided_bounds": ["a(1:n:k) = b(1:n:k) + 1.0_wp", "c(1) = a(1)"],
+    "strided_read": [loop("1, n", "c(i) = 0.0_wp"), "t = sum(a(::k))"],
+    "init_local": [loop("1, 3", "a(i) = w3(i) * b(i)"), "c(1) = a(1) + w3(2)"],
+    "init_local2": ["w3(1) = t", loop("1, 3", "a(i) = w3(i)"), "q = w3(3)"],
     "while_loop": ["k = 1", "do while (k < n)\n  a(k) = b(k)\n  k = k + 1\nend do", "c(1) = a(1)"],
 }
+
+
+LOCALS = "\n    real(kind=wp), dimension(3) :: w3 = (/1.0_wp, 2.0_wp, 3.0_wp/)"
 
 
 def gen(tier, seed):
     cases = []
     for name, stmts in BODIES.items():
         body = "\n".join(stmts)
-        cases.append({"template": name, "params": {}, "src": HEAD.format(body=ind(body)), "routine": "s",
+        locs = LOCALS if "w3" in body else ""
+        cases.append({"template": name, "params": {}, "src": HEAD.format(body=ind(body), locals=locs), "routine": "s",
                       "nstmts": len(stmts), "stmts": stmts})
     return cases
